@@ -64,10 +64,10 @@ theorem matched_are_shared (tags : List String) (req : List (List String)) (opt 
 
 /-- **Soundness and completeness of the search.** An entry is among the results iff it is an account other than the searcher's, or a
 topic, whose tags match the query - shown with exactly the matched tags - and which is in the normal state unless a root session
-asks (a suspended account, a deleted topic is never shown to an ordinary user). -/
+asks (a suspended or deleted account, a deleted topic is never shown to an ordinary user). -/
 theorem found_iff (w : World) (caller : Uid) (lvl : Level) (req : List (List String)) (opt : List String) (f : Found) :
     f ∈ w.findSubs caller lvl req opt ↔
-      (∃ u ∈ w.users, u.uid ≠ caller ∧ (lvl ≠ .root → u.suspended = false) ∧ matchTags u.tags req opt = some f.tags ∧
+      (∃ u ∈ w.users, u.uid ≠ caller ∧ (lvl ≠ .root → u.suspended = false ∧ u.deleted = false) ∧ matchTags u.tags req opt = some f.tags ∧
           f.name = u.uid ∧ f.mode = (match lvl with | .anon => u.anon | _ => u.auth)) ∨
       (∃ r ∈ w.store, (lvl ≠ .root → r.state = 0) ∧ matchTags r.tags req opt = some f.tags ∧
           f.name = (if r.chan then "chn:" ++ r.name else r.name) ∧
@@ -79,7 +79,7 @@ theorem found_iff (w : World) (caller : Uid) (lvl : Level) (req : List (List Str
     · left
       by_cases h1 : u.uid = caller
       · simp [h1] at h
-      · by_cases h2 : lvl ≠ .root ∧ u.suspended = true
+      · by_cases h2 : lvl ≠ .root ∧ (u.suspended = true ∨ u.deleted = true)
         · simp [h1, h2] at h
         · simp only [h1, if_false, h2] at h
           cases hm : matchTags u.tags req opt with
@@ -90,8 +90,11 @@ theorem found_iff (w : World) (caller : Uid) (lvl : Level) (req : List (List Str
             refine ⟨u, hu, h1, ?_, hm, rfl, rfl⟩
             intro hl
             cases hs : u.suspended with
-            | false => rfl
-            | true => exact absurd ⟨hl, hs⟩ h2
+            | true => exact absurd ⟨hl, Or.inl hs⟩ h2
+            | false =>
+              cases hd : u.deleted with
+              | true => exact absurd ⟨hl, Or.inr hd⟩ h2
+              | false => exact ⟨rfl, rfl⟩
     · right
       by_cases h2 : lvl ≠ .root ∧ r.state ≠ 0
       · simp [h2] at h
@@ -109,8 +112,10 @@ theorem found_iff (w : World) (caller : Uid) (lvl : Level) (req : List (List Str
   · rintro (⟨u, hu, h1, h2, hm, hn, hmo⟩ | ⟨r, hr, h2, hm, hn, hmo⟩)
     · left
       refine ⟨u, hu, ?_⟩
-      have h2' : ¬(lvl ≠ .root ∧ u.suspended = true) := by
-        rintro ⟨hl, hs⟩; rw [h2 hl] at hs; cases hs
+      have h2' : ¬(lvl ≠ .root ∧ (u.suspended = true ∨ u.deleted = true)) := by
+        rintro ⟨hl, hs | hs⟩
+        · rw [(h2 hl).1] at hs; cases hs
+        · rw [(h2 hl).2] at hs; cases hs
       simp only [h1, if_false, h2', hm]
       obtain ⟨n, m, tg⟩ := f
       simp only at hn hmo
@@ -132,10 +137,10 @@ theorem never_the_searcher (w : World) (caller : Uid) (lvl : Level) (req : List 
   · rw [hn]; exact h1
   · rw [hn]; exact hu r hr
 
-/-- an ordinary (or anonymous) searcher is never shown a suspended account or a deleted topic -/
+/-- an ordinary (or anonymous) searcher is never shown a suspended or deleted account or a deleted topic -/
 theorem hidden_from_ordinary_users (w : World) (caller : Uid) (lvl : Level) (hl : lvl ≠ .root) (req : List (List String))
     (opt : List String) (f : Found) (h : f ∈ w.findSubs caller lvl req opt) :
-    (∃ u ∈ w.users, f.name = u.uid ∧ u.suspended = false) ∨ (∃ r ∈ w.store, r.state = 0 ∧
+    (∃ u ∈ w.users, f.name = u.uid ∧ u.suspended = false ∧ u.deleted = false) ∨ (∃ r ∈ w.store, r.state = 0 ∧
       f.name = (if r.chan then "chn:" ++ r.name else r.name)) := by
   rcases (found_iff w caller lvl req opt f).mp h with ⟨u, hu, _, h2, _, hn, _⟩ | ⟨r, hr, h2, _, hn, _⟩
   · exact Or.inl ⟨u, hu, hn, h2 hl⟩
